@@ -149,3 +149,52 @@ def sany(module, cwd=None):
     ok = p.returncode == 0 and "Semantic errors" not in p.stdout and "Parse Error" not in p.stdout \
         and "Fatal errors" not in p.stdout and "Could not find module" not in p.stdout
     return ok, p.stdout
+
+
+if __name__ == "__main__":
+    import sys
+    a = sys.argv[1:]
+    w = None
+    if "-w1" in a:
+        a.remove("-w1")
+        w = 1
+    res = run(a[0], a[1] if len(a) > 1 else None, workers=w, timeout=3600, collect_json=False)
+    lines = [ln for ln in res.stdout.splitlines()
+             if not ln.startswith(("Computed ", "Semantic ", "Linting ", "Parsing ", "Progress("))]
+    print("\n".join(lines[-(int(os.environ.get("TAIL", "40"))):]))
+
+
+def trace_check(module, invariants, trace_file, constants=None, timeout=1800, workers=None, label=None):
+    """Validate a trace file (array of records; spec has the single variable i = record index).
+
+    Runs TLC with -continue so that every violated (invariant, record) pair is reported.
+    Returns (TLCResult, {invariant: [record indices (0-based)]}).
+    """
+    wd = workdir("tr")
+    cfgp = os.path.join(wd, "trace.cfg")
+    with open(cfgp, "w") as fh:
+        fh.write("SPECIFICATION Spec\n")
+        if constants:
+            fh.write("CONSTANTS\n")
+            for k, v in constants.items():
+                fh.write(f"  {k} = {v}\n")
+        for inv in invariants:
+            fh.write(f"INVARIANT {inv}\n")
+        fh.write("CHECK_DEADLOCK FALSE\n")
+    try:
+        res = run(module, cfgp, timeout=timeout, workers=workers, extra=["-continue"],
+                  env={"TRACE_FILE": trace_file}, collect_json=False)
+    finally:
+        shutil.rmtree(wd, ignore_errors=True)
+    viol = {}
+    for m in re.finditer(r"Error: Invariant (\S+) is violated[^\n]*\n(?:[^\n]*\n){0,3}?[/\\ ]*i = (\d+)", res.stdout):
+        viol.setdefault(m.group(1), set()).add(int(m.group(2)) - 1)
+    viol = {k: sorted(v) for k, v in viol.items()}
+    if res.error and not viol:
+        raise TLCError("trace validation failed (machinery):\n" + res.stdout[-3000:])
+    if "Error:" in res.stdout and not viol:
+        raise TLCError("trace validation failed (evaluation error):\n" + res.stdout[-3000:])
+    # evaluation errors inside an invariant also stop TLC: surface them
+    if re.search(r"Error: Evaluating invariant|Error: The error occurred|Attempted to", res.stdout):
+        raise TLCError("trace validation hit an evaluation error:\n" + res.stdout[-4000:])
+    return res, viol
